@@ -143,9 +143,10 @@ PRIMS = {
 }
 
 
-def check_imports(tree, fn, local_defs=()):
+def check_imports(tree, fn, local_defs=(), expected=None):
     """every free name of fn is a builtin, a checked module alias, a module-level function listed in
-    local_defs, or imported from the module it is expected to come from"""
+    local_defs, or imported from the module it is expected to come from (`expected`, default EXPECTED)"""
+    expected = EXPECTED if expected is None else expected
     names, mods = joins.import_table(tree)
     bound = set(a.arg for a in fn.args.args)
     for n in ast.walk(fn):
@@ -176,7 +177,7 @@ def check_imports(tree, fn, local_defs=()):
             if n.id not in names:
                 raise Unsupported('free name %s is not imported' % n.id)
             mod, orig = names[n.id]
-            if orig != n.id or EXPECTED.get(n.id) != mod:
+            if orig != n.id or expected.get(n.id) != mod:
                 raise Unsupported('%s is imported from %s.%s' % (n.id, mod, orig))
 
 
@@ -616,6 +617,11 @@ def gen_helpers(repo, srcs):
 
 # --------------------------------------------------------------------------- the wrappers
 class WrapperPreparer:
+    # hooks for filter_wrappers.py (Gen/FilterWrapperGen.v): the label parameters that may index a frame,
+    # and plain parameters appended after cpu_count_ (the `self_<attr>` parameters of a method)
+    labels = ('l_join_attr', 'r_join_attr')
+    extra_params = ()
+
     def __init__(self, repo, rel, fname, core_py, core_new, core_params, core_local, mode, helpers, srcs):
         self.repo, self.rel, self.fname = repo, rel, fname
         self.core_py, self.core_new, self.core_params = core_py, core_new, core_params
@@ -827,7 +833,7 @@ class WrapperPreparer:
                     s.value.func.id == 'get_attrs_to_project' and len(s.targets) == 1 and \
                     isinstance(s.targets[0], ast.Name) and joins.assigned_anywhere(self.fn).get(s.targets[0].id) == 1:
                 lists.append(s.targets[0].id)
-        ft = FrameTyper(self.fn, ['ltable', 'rtable'], lists, ['l_join_attr', 'r_join_attr'], helpers, self.notes)
+        ft = FrameTyper(self.fn, ['ltable', 'rtable'], lists, list(self.labels), helpers, self.notes)
         ty = ft.run()
         if ty != 'frame':
             raise Unsupported('%s does not return a frame' % self.fname)
@@ -835,6 +841,8 @@ class WrapperPreparer:
             # no alias: every binding of x is the result of a call (checked by FrameTyper.stmts)
             pass
         self.fn.args.args.append(ast.arg(arg='cpu_count_'))
+        for p in self.extra_params:
+            self.fn.args.args.append(ast.arg(arg=p))
         self.notes.append('get_num_processes_to_launch(n) -> get_num_processes_to_launch_with_cpus(n, cpu_count_); '
                           'cpu_count_ is the last plain parameter')
         self.notes.append('%s(..) -> frame_of_core(%s(..))' % (self.core_py, self.core_new))
